@@ -83,7 +83,18 @@ def oracle(spec, ops):
 
 def cqd_check(rng, spec, ops, driver=None):
     """cqd_score against its formula on the current elites, exact arithmetic (dist_ord=1, dyadic inputs)."""
-    trace, mops, archive, table = au.run_impl(spec, ops, obs=False)
+    # the history is interrupted once by a cqd_score call with default arguments (anything it remembers must not outlive a change of
+    # the archive: a SlidingBoundariesArchive's bounds move at the next remap)
+    archive, table = au.make_archive(spec), {}
+    mid = rng.randrange(len(ops)) if ops else 0
+    for k_op, op in enumerate(ops):
+        if k_op == mid and len(archive) and hasattr(type(archive), "upper_bounds"):
+            try:
+                archive.cqd_score(iterations=1, target_points=2, penalties=2, obj_min=0.0, obj_max=1.0)
+                archive.cqd_score(iterations=1, target_points=2, penalties=2, obj_min=0.0, obj_max=1.0, dist_ord=1)
+            except Exception:  # noqa
+                pass
+        au.apply_op(archive, spec, op, table, obs=False)
     d = archive.data()
     n = len(d["index"])
     md = au.measure_dim(spec)
@@ -320,12 +331,21 @@ def check(rep, tier, seed, driver):
     # cqd_score
     ncqd = 40 if tier == "quick" else 600
     for k in range(ncqd):
-        spec = au.gen_spec(rng, kinds=("grid", "cvt"), cma=(k % 2 == 1), dtypes=("d",), max_cells=16)
-        ops = au.gen_history(rng, spec, rng.randint(1, 6), 6, lambda r: r.randrange(-32, 33) / 8.0)
+        if k % 4 == 3:
+            # SlidingBoundariesArchives that really remap (their bounds move during the history)
+            import c15
+            spec = c15.gen_spec(rng, "quick")
+            spec["dtype"] = "d"
+            ops = c15.gen_ops(rng, spec, rng.randint(4, 14))
+            rep.count("cqd_sliding_cases")
+        else:
+            spec = au.gen_spec(rng, kinds=("grid", "cvt"), cma=(k % 2 == 1), dtypes=("d",), max_cells=16)
+            ops = au.gen_history(rng, spec, rng.randint(1, 6), 6, lambda r: r.randrange(-32, 33) / 8.0)
         # measures must be dyadic for exact L1 distances
         for o in ops:
             for c in (o[1] if o[0] == "add" else [o[1]] if o[0] == "add_single" else []):
-                c[2] = [round(x * 8) / 8.0 for x in c[2]]
+                if spec["kind"] != "sliding":
+                    c[2] = [round(x * 8) / 8.0 for x in c[2]]
         if spec.get("lr") not in (None, 0.0, 0.5, 1.0):
             spec["lr"] = 0.5
         try:
